@@ -128,6 +128,27 @@ Theorem C10_ping_hyps_met :
   rt_ping_timeout (s_rt (w_sess ex_ka)) = None /\ w_inq ex_ka = [] /\ w_waits ex_ka < MAX_WAITS.
 Proof. exact ping_hyps_met. Qed.
 
+
+(* A PINGRESP received in time never leads to a disconnect: poll() reads it, clears the round-trip timer, writes nothing, and
+   the connection stays alive with the next PINGREQ scheduled as before. *)
+Theorem C10_pingresp_in_time_keeps_connection : forall w t t0,
+  2 <= rcap (rd w) -> w_live w = true -> rdata (rd w) = [] -> rplen (rd w) = None ->
+  next_step (s_ob (w_sess w)) = None ->
+  rt_ping_timeout (s_rt (w_sess w)) = Some t0 -> w_now w < t0 ->
+  (forall d, rt_next_ping (s_rt (w_sess w)) = Some d -> w_now w < d) ->
+  w_script w = [] -> w_inq w = [(t, [208; 0])] -> t <= w_now w ->
+  exists w', op_poll FUEL w = (w', ODone None) /\ w_live w' = true /\ w_now w' = w_now w /\ w_wire w' = w_wire w /\
+    rt_ping_timeout (s_rt (w_sess w')) = None /\ rt_next_ping (s_rt (w_sess w')) = rt_next_ping (s_rt (w_sess w)) /\
+    s_ob (w_sess w') = s_ob (w_sess w).
+Proof. exact poll_pingresp_clears. Qed.
+
+Theorem C10_pingresp_example :
+  snd (op_poll FUEL ex_kb) = ODone None /\ w_now ex_kb2 = 25000 /\ w_inq ex_kb2 = [(25000, [208; 0])] /\
+  rt_ping_timeout (s_rt (w_sess ex_kb2)) = Some 30000 /\
+  snd (op_poll FUEL ex_kb2) = ODone None /\ rt_ping_timeout (s_rt (w_sess (fst (op_poll FUEL ex_kb2)))) = None /\
+  w_live (fst (op_poll FUEL ex_kb2)) = true /\ w_now (fst (op_poll FUEL ex_kb2)) = 25000.
+Proof. exact pingresp_example. Qed.
+
 Print Assumptions C10_next_ping_within_keepalive.
 Print Assumptions C10_ping_when_due.
 Print Assumptions C10_ping_only_when_due.
@@ -146,3 +167,5 @@ Print Assumptions C10_poll_pings_at_deadline.
 Print Assumptions C10_poll_times_out_at_bound.
 Print Assumptions C10_ping_example.
 Print Assumptions C10_ping_hyps_met.
+Print Assumptions C10_pingresp_in_time_keeps_connection.
+Print Assumptions C10_pingresp_example.
